@@ -31,7 +31,6 @@ def k1(R, prog):
         ('photon::qspinlock::lock', 'next', 'store', 'release'),
         ('photon::qspinlock::lock', 'got_lock', 'load', 'acquire'),
         ('photon::qspinlock::unlock', 'next', 'load', 'acquire'),
-        ('photon::qspinlock::unlock', 'got_lock', 'store', 'release'),
         ('photon::qspinlock::unlock', '_owner_tail', 'compare_exchange_strong', 'release'),
         ('photon::mutex::try_lock', 'owner', 'compare_exchange_strong', 'acquire'),
         ('photon::mutex::lock', 'owner', 'load', 'acquire'),
@@ -39,6 +38,28 @@ def k1(R, prog):
     ]
     for fn, obj, op, need in T:
         R.guard(K.k1_atomic_order, R, prog, P + '.K1', fn, obj, op, need)
+    # the hand-over is the store of `true` into the successor's flag (a relaxed re-arm of one's own flag is not a hand-over)
+    R.guard(K.k1_atomic_order, R, prog, P + '.K1', 'photon::qspinlock::unlock', 'got_lock', 'store', 'release', value=1)
+    R.guard(qspin_rearm, R, prog)
+
+
+def qspin_rearm(R, prog):
+    """K8: a queued waiter clears its own got_lock flag before it publishes itself to its predecessor (old_tail->next = h); the flag it
+    spins on afterwards is that same one.  A flag left `true` from an earlier hand-over lets the waiter fall through the wait loop."""
+    G = K.build(R, prog, 'photon::qspinlock::lock')
+    f = G.root
+    own = lambda p: (p or '').rsplit('.', 1)[0].rsplit('->', 1)[0]
+    reset = lambda ev: (K.atomic_op(ev) or (None, None))[1] in ('store', 'operator=') and (K.atomic_op(ev)[0] or '').endswith('got_lock') and ev.e.get('args') and ev.f.const(ev.e['args'][0]) == 0
+    publish = lambda ev: (K.atomic_op(ev) or (None, None))[1] in ('store', 'operator=', 'exchange') and (K.atomic_op(ev)[0] or '').endswith('next') and ev.e.get('args') and ev.f.const(ev.e['args'][0]) is None
+    res = an.run(G, [an.SeenTracker([('reset', reset), ('published', publish)])])
+    K.check_at(R, P + '.K8', G, res, lambda ev: ev.kind == 'return' and ev.depth == 0, require=lambda st, ev: 'S:published' not in st or 'S:reset' in st,
+               key_fn=lambda ev: P + '.K8:photon::qspinlock::lock:own-flag-cleared-before-enqueue',
+               describe=lambda ev: 'a waiter that queued itself has re-armed (cleared) its own got_lock flag in this acquisition - before linking itself behind the predecessor, or after its spin ended', min_sites=2, what='returns of qspinlock::lock')
+    spin = [ev for _, _, ev in G.events() if (K.atomic_op(ev) or (None, None))[1] == 'load' and (K.atomic_op(ev)[0] or '').endswith('got_lock')]
+    rs = [ev for _, _, ev in G.events() if reset(ev)]
+    ok = bool(spin) and bool(rs) and all(own(K.atomic_op(a)[0]) == own(K.atomic_op(b)[0]) for a in spin for b in rs)
+    (R.held if ok else R.violated)(P + '.K8', P + '.K8:photon::qspinlock::lock:spins-on-the-flag-it-cleared', f.id, '%s:%d' % (f.file, f.line),
+                                    'the flag cleared before enqueueing is the flag polled afterwards')
 
 
 def mutex_lock(R, prog):
@@ -86,6 +107,15 @@ def mutex_lock(R, prog):
                key_fn=lambda ev: rule6 + ':photon::mutex::lock:return-after-sleep',
                describe=lambda ev: 'return %s: woken-as-owner path must have re-read owner==CURRENT' % ev.show()[:60],
                min_sites=1, what='return of translated sleep result')
+    # (2c) a timeout is declared only inside the splock critical section in which the try just failed: a waiter that was woken
+    # as the designated next owner (contending mode) must try before it may give up, or the mutex stays free with sleepers queued
+    res_t = an.run(G, [lt, an.GuardTracker(lambda k: 'try_lock' in k, lock_tracker=lt), an.ConstTracker()])
+    K.check_at(R, rule6, G, res_t,
+               target=lambda ev: ev.kind == 'binop' and ev.e['op'] == '=' and ev.path(ev.e['l']) == 'errno' and ev.f.const(ev.e['r']) == 110,
+               require=lambda st, ev: an.has_lock(st, 'this->splock') and ('G:this->try_lock() == 0=F' in st or 'G:this->try_lock()=T' in st),
+               key_fn=lambda ev: rule6 + ':photon::mutex::lock:timeout-only-after-failed-try-under-splock',
+               describe=lambda ev: 'ETIMEDOUT is declared only with splock held and after try_lock() failed inside that critical section',
+               min_sites=1, what='errno = ETIMEDOUT')
     # (3) internal spinlock: held at the hand-off, released exactly once on every exit
     K.check_at(R, rule4, G, res,
                target=lambda ev: ev.kind == 'call' and (ev.callee() or '').split('::')[-1] in SLEEPS,
